@@ -232,6 +232,62 @@ def rule_r3(facts, rep, rid="C06-R3"):
                 rep.violation(rid, fm.def_ + "|title-cached-under-own-key", "title cached under a key that is not the updated note's key: %s" % sorted(pv), loc(fm, x))
 
 
+def rule_r5(facts, rep, rid="C06-R5"):
+    """A link is re-printed in another *kind* (autolink `<url>`) only when it is external and its text equals its url - in both printers."""
+    from . import arms as A
+    n = 0
+    for nm in ("GraphInline::to_markdown", "MarkdownWriter::inlines_to_events"):
+        f = facts.fn(nm)
+        rep.saw_fn(f)
+        ms = A.matches_on(f, "GraphInline")
+        if not ms:
+            rep.anchor_missing(rid, "match on GraphInline in " + nm)
+            continue
+        for vs, arm in A.arms_of(ms[0]):
+            if not any(fb.last_seg(v) == "Link" for v in vs):
+                continue
+            for x in fb.walk(arm["body"]):
+                if x.get("k") != "if":
+                    continue
+                cond = x["c"]
+                # a kind-changing branch: its then-side prints the autolink form (`<...>` literal / LinkType::Autolink)
+                def autolink(e):
+                    for y in fb.walk(e):
+                        if y.get("k") == "lit" and str(y.get("v", "")).startswith("s:<"):
+                            return True
+                        if y.get("k") == "path" and (y.get("def") or "").endswith("LinkType::Autolink"):
+                            return True
+                        if y.get("k") == "call" and "Arguments" in (fb.callee(y) or "") and "<" in fb.show(y)[:40]:
+                            return True
+                    return False
+                if not autolink(x["t"]):
+                    continue
+                n += 1
+                key = "%s|arm:Link|kind-change-only-for-external" % f.def_
+                # conjunction with a negated is_ref / is_ref_url
+                conj = []
+
+                def split(e):
+                    if e.get("k") == "binary" and e["op"] == "&&":
+                        split(e["l"])
+                        split(e["r"])
+                    else:
+                        conj.append(e)
+                split(cond)
+                neg_ref = False
+                for cj in conj:
+                    if cj.get("k") == "unary" and cj.get("op") == "!":
+                        inner = cj["e"]
+                        if inner.get("k") in ("call", "mcall") and fb.last_seg(fb.callee(inner) or "") in ("is_ref", "is_ref_url"):
+                            neg_ref = True
+                if neg_ref:
+                    rep.ok(rid, key, "autolink form chosen under `%s`" % fb.show(cond)[:80], loc(f, x))
+                else:
+                    rep.violation(rid, key, "the printer switches a link to the autolink form `<url>` under `%s`, without requiring the link to be external: a reference whose (refreshed) text "
+                                  "equals its key - a note whose heading spells its own name, or a dangling [x](x) - is written as <x>, which is no longer a link to the note" % fb.show(cond)[:80], loc(f, x))
+    rep.floor(rid, "kind-changing branches in the link printers", n, 2)
+
+
 def run(facts, rep, tier):
     rep.rule("C06-R1", "Kind->text table agreement across the three sites that choose a link's text (GraphInline::normalize, "
              "GraphNodePointer::node, Projector::project_node): Regular = title with fallback to the original, WikiLink = empty, "
@@ -245,3 +301,8 @@ def run(facts, rep, tier):
     rule_r2(facts, rep)
     rule_r3(facts, rep)
     c05.rule_r2(facts, rep, "C06-R4")
+    rep.rule("C06-R4b", "= C15-R3: the directory a block reference is resolved against comes from Key::parent, which must use the same path algebra as the url reader/writer.")
+    from . import c15
+    c15.rule_r3(facts, rep, "C06-R4b")
+    rep.rule("C06-R5", "Links keep their kind: both link printers choose the autolink form only under `!is_ref && text == url`.")
+    rule_r5(facts, rep)
